@@ -8,6 +8,8 @@ Sensitivity (quick tier, scratch copies):
   pre-fix snapshot 59274db: add,add,del -> KeyError (F1)                       -> caught (present_name_not_deletable)
   pre-fix snapshot: continuation line with an empty side (F17)                 -> caught (continuation_edge_whitespace)
   seeded: __delitem__ clearing the cache under the caller's spelling           -> caught (stale joined value after delete)
+  seeded (round 8): add() recording the continuation target before validating, so a REFUSED add moves it
+     -> missed until refused adds ("add_bad": padded values, control characters, bad names) were generated (get_list after cont)
   seeded (round 6): __setitem__ returning early when the cached combined value equals the new value
      (add a; add b; get; set "a,b" keeps two lines) -> missed until the read-modify-write op "setjoined" existed (get_list)
 Reads populate the combined-value cache, so full observations are themselves generated ops ("get") —
@@ -54,6 +56,10 @@ op_s = st.one_of(
     st.tuples(st.just("add"), tgt, name_s, _value()),
     st.tuples(st.just("set"), tgt, name_s, _value()),
     st.tuples(st.just("del"), tgt, name_s),
+    # an add() that the map is expected to refuse (padded value / control character / bad name): a refused
+    # operation is not an operation on the multimap - nothing may change, including where a continuation line goes
+    st.tuples(st.just("add_bad"), tgt, name_s, st.sampled_from(["two ", " two", "\ttwo", "a\x00b", "a\nb", "a\rb", "x\x7f"])),
+    st.tuples(st.just("add_bad"), tgt, st.sampled_from(["bad name", "bad:name", "", "x\x00", "x-\xe9"]), st.just("v")),
     st.tuples(st.just("get"), tgt, name_s),
     # read-modify-write: set the name to exactly the combined value just read from it (collapses it to one line)
     st.tuples(st.just("setjoined"), tgt, name_s, st.sampled_from(["", "", ",z", " "])),
@@ -172,6 +178,30 @@ def run_case(ctx, case):
             if multi:
                 nontrivial = True
                 labels.add("set_after_multi_add")
+        elif kind == "add_bad":
+            _, _, n, v = op
+            before = [(k, x) for k, x in h.get_all()]
+            try:
+                h.add(n, v)
+                refused = False
+            except Exception as e:  # refusing is the expected outcome; the exception type is not our business here
+                refused = True
+                if type(e).__name__ not in ("HTTPInputError", "ValueError", "TypeError", "UnicodeEncodeError", "UnicodeError"):
+                    raise
+            if refused:
+                labels.add("add_refused")
+                nontrivial = nontrivial or m.last not in (None, UNKNOWN)
+                if [(k, x) for k, x in h.get_all()] != before:
+                    ctx.fail("C06.refused_add_changed_the_map", {"step": step, "name": n, "value": v})
+            else:
+                # a lenient implementation may accept it (trimmed or as is): follow what it stored, if consistent
+                labels.add("add_bad_accepted")
+                after = [(k, x) for k, x in h.get_all()]
+                stored = h.get_list(n)[-1] if h.get_list(n) else None
+                if len(after) != len(before) + 1 or stored not in (v, v.strip(" \t")) or norm(n) not in [norm(x) for x in NAMES]:
+                    return ctx.note(case, labels | {"add_bad_accepted_unmodelled"}, False)  # outside the model: stop this case
+                m.add(n, stored)
+                adds_seen.setdefault(t, {}).setdefault(norm(n), set()).add(n)
         elif kind == "setjoined":
             _, _, n, suffix = op
             if norm(n) in m.d:
